@@ -294,9 +294,20 @@ def rewriter(repo):
 
 @_memo
 def recompiler(repo):
+    def names_of(f):
+        return {call_name(c) for c in ast.walk(f.node) if isinstance(c, ast.Call)}
+
     def ok(f):
-        names = {call_name(c) for c in ast.walk(f.node) if isinstance(c, ast.Call)}
-        return "compile" in names and "FunctionType" in names
+        names = names_of(f)
+        if "FunctionType" not in names:
+            return False
+        if "compile" in names:
+            return True
+        # the compiling half moved into a private helper of the module that did not exist in the reference tree
+        for g in _lift(repo, [h for h in f.module.funcs.values() if h.parent is None and h.cls is None and "compile" in names_of(h)]):
+            if g is f:
+                return True
+        return False
 
     return _one([f for f in repo.all_funcs() if f.parent is None and f.cls is None and ok(f)], "re-compiler (calls compile and FunctionType)")
 
@@ -454,7 +465,13 @@ def cls_namespace(repo):
     def ok(c):
         return "dict" in c.base_names and "__setitem__" in c.methods
 
-    return _one([c for c in repo.all_classes() if ok(c)], "class-namespace dict (dict subclass with __setitem__)")
+    cands = [c for c in repo.all_classes() if ok(c)]
+    if len(cands) > 1:
+        # the one the metaclass's __prepare__ instantiates
+        metas = [c for c in repo.all_classes() if "type" in c.base_names and "__prepare__" in c.methods]
+        used = {n.func.id for m in metas for n in ast.walk(m.methods["__prepare__"].node) if isinstance(n, ast.Call) and isinstance(n.func, ast.Name)}
+        cands = [c for c in cands if c.name in used] or cands
+    return _one(cands, "class-namespace dict (dict subclass with __setitem__)")
 
 
 @_memo
